@@ -38,7 +38,7 @@ TIERS = {
               "required_probes": ["c17.run_completed", "c17.barrier_event_mixed", "c17.reuse_log_then_identity",
                                   "c17.multilevel_run", "c17.pool_run", "c17.default_happened", "c17.default_mixed",
                                   "c17.stochastic_time_grid", "c17.shared_control_variates", "c17.asian_run",
-                                  "c17.kth_name_default_run"]},
+                                  "c17.kth_name_default_run", "c17.shared_control_variates_multilevel"]},
     "thorough": {"worlds": 200000, "wall": 3300, "shrink_budget": 150,
                  "required_probes": ["c17.run_completed", "c17.barrier_event_mixed", "c17.reuse_log_then_identity",
                                      "c17.multilevel_run", "c17.pool_run", "c17.default_happened",
@@ -93,7 +93,8 @@ def generate(seed, tier="quick"):
     vol = r.choice([0.03, 0.08, 0.15])
     return {"world_seed": seed, "product": spec, "x0": x0, "runs": runs, "vol": vol, "df": r.choice([1.0, 0.9]),
             "drift": r.choice([0.0, 0.0, 0.08, -0.15]), "jitter": r.random() < 0.4,
-            "control": (r.choice(["spot_forward", "logspot_forward", "logspot_forward"]) if (kind not in ("multi", "rates", "ntd", "cds", "cdsk") and r.random() < 0.35) else None),
+            "control": (r.choice(["spot_forward", "logspot_forward", "logspot_forward"]) if (kind not in ("multi", "rates", "ntd", "cds", "cdsk") and r.random() < 0.35)
+                        else ("same_underlying_sum" if (kind == "multi" and spec["sub"] in ("performances_rainbow", "logspot", "indicators") and r.random() < 0.6) else None)),
             "pseed": r.randrange(10 ** 9), "jump_prob": r.choice([0.0, 0.3, 0.6]),
             "env": {"cpu_count": 4, "path_cost": 1e-5, "spawn_cost": 1e-4}}
 
@@ -272,6 +273,12 @@ def execute(wd, sc):
 
         if sc["control"] == "spot_forward":
             cprod = _Prod(payoff_underlying=_Spot(), payoff=_Fwd(strike=0.9 * sc["x0"]), maturity=T)
+        elif sc["control"] == "same_underlying_sum":
+            # control on the SAME underlying type as the priced product: ControlVariates passes the product's underlying
+            # value through instead of recomputing it (imply_from_payoff_underlying)
+            from rpylib.product.payoff import PayoffOnTheFly as _Fly
+
+            cprod = _Prod(payoff_underlying=copy.deepcopy(pristine.payoff_underlying), payoff=_Fly(_sum_of), maturity=T)
         else:
             cprod = _Prod(payoff_underlying=_LogSpot(), payoff=_Fwd(strike=float(np.log(0.9 * sc["x0"]))), maturity=T)
         cv_pristine = copy.deepcopy(cprod)
@@ -307,7 +314,9 @@ def execute(wd, sc):
             else:
                 cp = stubs.ScriptedPathCoupling(base, times, log, df_value=df, names=spec.get("names"), drift=drift)
                 cfg = ConfigurationMultiLevel(initial_level=0, maximum_level=run["max_level"], initial_mc_paths=n,
-                                              nb_of_processes=run["nproc"])
+                                              nb_of_processes=run["nproc"], control_variates=cv_shared)
+                if cv_shared is not None:
+                    wd.probes["c17.shared_control_variates_multilevel"] += 1
                 stats = MLEngine(cfg, cp).price_with_constant_mc_paths_and_level(product)
                 wd.probes["c17.multilevel_run"] += 1
         except HarnessError:
@@ -361,9 +370,32 @@ def execute(wd, sc):
             groups = []
             for lvl in range(run["max_level"] + 1):
                 lrecs = [x for x in recs if x["level"] == lvl]
-                f = np.asarray(stats.simulation_payoff_with_fine_process(level=lvl), dtype=float)
-                c = np.asarray(stats.simulation_payoff_with_coarse_process(level=lvl), dtype=float)
+                f = np.asarray(stats.simulation_payoff_with_fine_process(level=lvl, no_control_variates=True), dtype=float)
+                c = np.asarray(stats.simulation_payoff_with_coarse_process(level=lvl, no_control_variates=True), dtype=float)
                 groups.append((lvl, lrecs, f, c))
+                if cv_shared is not None:
+                    # stored control samples of the level: fine (and coarse) value of the control product on the fine (coarse)
+                    # path of the same sample - not on the other component's path, not on an earlier sample's
+                    craw = np.asarray(stats.mc_statistics[lvl]._control_variates_statistics.stats, dtype=float)
+                    if len(lrecs) == craw.shape[0]:
+                        for i, rec_ in enumerate(lrecs):
+                            ptimes_ = np.asarray(rec_["times"], dtype=float)
+                            bad = None
+                            for ci in ((0,) if lvl == 0 else (0, 1)):
+                                d_ = np.asarray(rec_["diff"])[ci] if lvl > 0 else np.asarray(rec_["diff"])
+                                j_ = np.asarray(rec_["jump"])[ci] if lvl > 0 else np.asarray(rec_["jump"])
+                                path_ = base + drift * ptimes_ + d_ + j_
+                                cval, _ = _evaluate(cv_pristine, run["rep"], ptimes_, path_, j_)
+                                exp_c = float(np.ravel(cval)[0]) * df
+                                got_c = float(np.ravel(craw[i, 0, 0, ci] if lvl > 0 else craw[i, 0, 0])[0])
+                                if not np.isclose(got_c, exp_c, rtol=1e-12, atol=1e-12 * (1 + abs(exp_c)), equal_nan=True):
+                                    bad = (ci, got_c, exp_c)
+                                    break
+                            if bad:
+                                comp_ = "single" if lvl == 0 else ("fine" if bad[0] == 0 else "coarse")
+                                add(f"C17.history|stored control-variate payoff differs from the value of a fresh copy of the control product on the same path|{sc['control']}|{comp_}|engine=mlmc|rep={run['rep']}",
+                                    {"run": ri, "level": lvl, "index": i, "stored": bad[1], "fresh_copy": bad[2]})
+                                break
         events = []
         for (lvl, lrecs, fine_store, coarse_store) in groups:
             if len(lrecs) != len(fine_store):
